@@ -53,6 +53,9 @@ Apply(h, kk, o) ==
     \* the peer itself produces (and hashes into its own transcript) a key-exchange message whose inner length prefix
     \* is wrong: no transcript divergence will save the endpoint, its parser has to notice
     [] o.op = "selfmal" -> SubSeq(h, 1, kk - 1) \o <<"BAD">> \o SubSeq(h, kk + 1, Len(h))
+    \* the peer itself offers another client_version, answers the server's flight with a well-formed key exchange and
+    \* then produces no valid Finished: whatever version the server settled on, it ends with an error
+    [] o.op = "selfvers" -> <<"MOD">> \o SubSeq(h, 2, Len(h))
     [] o.op = "close"  -> SubSeq(h, 1, kk - 1) \o <<"EOF">>
     [] o.op = "ccs"    -> SubSeq(h, 1, kk - 1) \o <<"X:CCS">> \o SubSeq(h, kk, Len(h))
     [] o.op \in {"appdata", "appdata_empty"} -> SubSeq(h, 1, kk - 1) \o <<"X:APP">> \o SubSeq(h, kk, Len(h))
@@ -68,6 +71,7 @@ Ops(h) == {[op |-> "none"], [op |-> "refrag"]} \cup
           UNION {{[op |-> "replace", k |-> i, t |-> t] : t \in InjTypes \ {h[i]}} : i \in 1..Len(h)} \cup
           {[op |-> "selfmal", k |-> i, how |-> w] : i \in {j \in 1..Len(h) : h[j] \in {"CKE", "SKE"}}, w \in SelfMals} \cup
           (IF h[1] = "CH" THEN {[op |-> "chvers", k |-> 1, v |-> v] : v \in Versions} \cup
+                               {[op |-> "selfvers", k |-> 1, v |-> v] : v \in Versions \cup {258, 511, 767}} \cup
                                {[op |-> "chsuites", k |-> 1, how |-> w] : w \in SuiteRewrites} \cup
                                {[op |-> "chcomp", k |-> 1]}
            ELSE {})
